@@ -250,6 +250,9 @@ unsafe impl GlobalAlloc for Shadow {
         }
         let p = System.alloc(layout);
         if !p.is_null() {
+            // fresh memory is filled with a pattern so that code treating never-written bytes as a
+            // value sees neither zeroes nor a stale valid-looking object
+            std::ptr::write_bytes(p, 0xA5, layout.size());
             // a block the system hands out again can no longer be "quarantined" in our books
             if let Some(e) = s.find(p as usize) {
                 e.state = 3;
